@@ -35,7 +35,7 @@ EXTRA_STANDINS = {
     "xsched": {"props": {"C07", "C08", "C09", "C10"}, "short": "real text of the scheduling requests and action kinds, every request up to the bound",
                "unit_of_count": "requests", "scenario_word": "request",
                "what": "contracts/xsched.rs: real text of GlobalScheduler::{time, schedule_from, schedule_*_event_from}, ActionKey, Action, ActionInner and its periodic/keyed impls, process_event, send_keyed_event, InputFn and util/priority_queue.rs cut from /repo with no rewrite rule, compiled against executable stubs (a Sender that delivers at once); every request up to the bound compared with the statements of C08/C09/C10. LABELLED BOUNDED: not part of obligations/discharged."},
-    "xbcast": {"props": {"C14"}, "short": "real text of the output broadcasters and the task set, every query scenario up to the bound",
+    "xbcast": {"props": {"C14", "C17"}, "short": "real text of the output broadcasters and the task set, every query scenario up to the bound",
                "unit_of_count": "query scenarios", "scenario_word": "scenario",
                "what": "contracts/xbcast.rs: ports/output/broadcaster.rs and util/task_set.rs, each file whole up to its test modules, cut from /repo with no rewrite rule and compiled against executable stubs of diatomic_waker, futures_task and the Sender trait (scripted repliers); every query scenario up to the bound, on one thread, compared with the first sentence of C14. LABELLED BOUNDED: not part of obligations/discharged."},
     "xpq": {"props": {"C20", "C07"}, "short": "real text of both priority queues, every operation sequence up to the bound",
